@@ -69,6 +69,19 @@ func (v *VerifPrison) Advance(dt int64) {
 // Lens returns the number of entries of the access and prison dictionaries.
 func (v *VerifPrison) Lens() (int, int) { return v.r.accessDict.Len(), v.r.prisonDict.Len() }
 
+// Reload replaces the rule by a freshly configured one that takes over the old dictionaries (initDict(oldRule)),
+// as a configuration reload does.
+func (v *VerifPrison) Reload(dictSize int) {
+	old := v.r
+	r := new(prisonRule)
+	*r = *old
+	r.accessDict, r.prisonDict = nil, nil
+	r.accessDictSize = dictSize
+	r.prisonDictSize = dictSize
+	r.initDict(old)
+	v.r = r
+}
+
 // Request runs recordAndCheck for the client identified by key (key < 0: request without client address).
 func (v *VerifPrison) Request(key int) bool {
 	req := &bfe_basic.Request{HttpRequest: &bfe_http.Request{Header: make(bfe_http.Header)}}
